@@ -21,7 +21,7 @@ import traceback
 import multiprocessing as mp
 
 VERIF = os.path.dirname(os.path.dirname(os.path.abspath(__file__)))
-REPO = '/repo'
+REPO = os.environ.get('VERIF_TREE', '/repo')
 
 EXIT_OK, EXIT_VIOLATION, EXIT_INCONCLUSIVE = 0, 1, 3
 
